@@ -234,6 +234,8 @@ class Program:
             from .normalize import inline_new_helpers, desugar_match
             desugar_match({m.name: m.tree for m in self.modules.values()})
             self.inlined, self.not_inlined = inline_new_helpers({m.name: m.tree for m in self.modules.values()})
+            from .normalize import split_tuple_assignments
+            split_tuple_assignments({m.name: m.tree for m in self.modules.values()})
         self.absorbed = {h for _caller, h in self.inlined}       # new helpers whose bodies are analysed at their call sites
         for mod in self.modules.values():
             _set_parents(mod.tree)
